@@ -88,7 +88,7 @@ inline long raw_futex(volatile uint32_t* addr, int op, uint32_t val) {
 
 // ------------------------------------------------------------------------------------------------
 // scheduler state (touched only by the baton holder)
-enum St { S_FREE = 0, S_NEW, S_RUNNING, S_AT_POINT, S_AT_LOCK, S_AT_JOIN, S_AT_END, S_WAIT_COND, S_WAIT_FUTEX, S_DONE };
+enum St { S_FREE = 0, S_NEW, S_RUNNING, S_AT_POINT, S_AT_LOCK, S_AT_JOIN, S_AT_END, S_WAIT_COND, S_WAIT_FUTEX, S_DONE, S_AT_QUIESCE };
 
 const int MAXT = 48;
 const int MAXOBJ = 512;
@@ -171,7 +171,7 @@ int ordinal(const void* addr) {
 }
 
 const char* stname(int st) {
-    static const char* n[] = {"free", "new", "running", "at-point", "at-lock", "at-join", "at-end", "wait-cond", "wait-futex", "done"};
+    static const char* n[] = {"free", "new", "running", "at-point", "at-lock", "at-join", "at-end", "wait-cond", "wait-futex", "done", "at-quiesce"};
     return n[st];
 }
 
@@ -197,6 +197,9 @@ bool enabled(const Th& t) {
         case S_AT_JOIN: return E.th[t.obj].st == S_DONE;
         case S_AT_END:
             for (int i = 0; i < E.nth; ++i) if (i != t.id && E.th[i].st != S_DONE) return false;
+            return true;
+        case S_AT_QUIESCE:      // vsched::quiesce(): continues only when no other thread can run (all blocked, timed-waiting or done)
+            for (int i = 0; i < E.nth; ++i) if (i != t.id && E.th[i].st != S_AT_QUIESCE && enabled(E.th[i])) return false;
             return true;
         default: return false;
     }
@@ -656,6 +659,12 @@ void fail(const std::string& k, const std::string& d) { if (E.fails) E.fails->em
 void observe(const std::string& o) { if (E.outcome) *E.outcome = o; }
 void state_hash(uint64_t h) { E.user_hash = mix(E.user_hash, h); }
 bool active() { return managed(); }
+void quiesce() {
+    if (!managed()) return;
+    Th* t = cur;
+    t->st = S_AT_QUIESCE; t->obj = -6;
+    reschedule(t);
+}
 int thread_id() { return cur ? cur->id : -1; }
 uint64_t timeouts_taken() { return E.timeouts; }
 
@@ -894,6 +903,7 @@ Stats Main::run(const std::string& cfg, const std::function<void()>& body, const
                 std::string ch = choices_str(s.prefix, s.prefix_len);
                 emit("VIOL\t" + clean(key, 300) + "\t" + clean(msg, 1500) + " [cfg=" + cfg + " schedule-prefix=" + ch + "]\t" + cfg + "|" + ch);
                 ++st.fatal;
+                if (st.fatal >= 24 && !SH->stop) SH->stop = 4;      // the same failure over and over (e.g. already in every worker's warm-up run): the configuration is reported, not retried forever
                 s.fatal = 0; s.running = 0;
                 sh_lock(); if (SH->inflight > 0) --SH->inflight; sh_unlock();
                 if (SH->lock) { /* a worker cannot die holding the lock: it only dies inside run_once */ }
